@@ -771,6 +771,97 @@ def gen_throttle(rnd, order=None):
     return d
 
 
+IFACES = {"peer": DRIVER + ".Peer", "dbus": DRIVER, "introspectable": DRIVER + ".Introspectable", "properties": DRIVER + ".Properties",
+          "monitoring": DRIVER + ".Monitoring", "none": None}
+MEMBERS = {"peer": ("Ping", "GetMachineId", "Bogus"), "dbus": ("GetId", "Hello", "RequestName", "Bogus"), "introspectable": ("Introspect", "Bogus"),
+           "properties": ("GetAll", "Bogus"), "monitoring": ("BecomeMonitor", "Bogus"), "none": ("Ping", "GetId", "Bogus")}
+MATRIX_TYPES = (1, 2, 3, 4, 5, 9)
+MATRIX_DESTS = ("none", "driver", "own", "missing")
+MATRIX_FLAGS = (0, 1, 2, 3, 4)
+
+
+def matrix_msg(serial, mtype, dest, iface_key, member, flags, le, own_name):
+    """one legal message of the matrix, or None if the combination cannot be expressed as a valid message"""
+    iface = IFACES[iface_key]
+    if mtype == SIGNAL and iface is None:
+        return None                                   # a signal must carry an interface
+    f = {F_PATH: "/org/freedesktop/DBus", F_MEMBER: member}
+    if iface is not None:
+        f[F_INTERFACE] = iface
+    if mtype in (METHOD_RETURN, ERROR):
+        f[F_REPLY_SERIAL] = 7
+    if mtype == ERROR:
+        f[4] = "c10.Matrix.Error"
+    d = {"none": None, "driver": DRIVER, "own": own_name, "missing": "c10.missing"}[dest]
+    if d is not None:
+        f[F_DESTINATION] = d
+    return Msg(mtype, flags, serial, f, le=le)
+
+
+def matrix_combos():
+    for mtype in MATRIX_TYPES:
+        for dest in MATRIX_DESTS:
+            for ik in IFACES:
+                for member in MEMBERS[ik]:
+                    for flags in MATRIX_FLAGS:
+                        for reg in (True, False):
+                            for le in (True, False):
+                                if dest == "own" and not reg:
+                                    continue
+                                if mtype == SIGNAL and ik == "none":
+                                    continue
+                                yield (mtype, dest, ik, member, flags, reg, le)
+
+
+def closes_unregistered(mtype, dest, ik):
+    """does this message make the bus close a sender that has not said Hello (so that it has to be the last one of its script)"""
+    if dest == "none":
+        return mtype == SIGNAL and ik != "peer"
+    return dest != "driver"
+
+
+def gen_matrix(rnd, n_random, tag):
+    """single legal messages over {type} x {destination} x {interface} x {member} x {flags} x {registered or not} x {byte order}: the complete
+    sub-matrix 'no destination, interface Peer' (answered by libdbus inside the daemon) plus a random sample of the rest; a connection sends
+    one message per write (the bystander round trip follows each), several per script as long as none of them gets it closed"""
+    combos = list(matrix_combos())
+    core = [c for c in combos if c[1] == "none" and c[2] in ("peer", "none")]
+    rest = [c for c in combos if not (c[1] == "none" and c[2] in ("peer", "none"))]
+    chosen = core + rnd.sample(rest, min(n_random, len(rest)))
+    rnd.shuffle(chosen)
+    groups = {True: [], False: [], "closer": []}
+    for c in chosen:
+        mtype, dest, ik, member, flags, reg, le = c
+        if not reg and closes_unregistered(mtype, dest, ik):
+            groups["closer"].append(c)
+        else:
+            groups[reg].append(c)
+    scripts = []
+
+    def script_of(items, reg):
+        s = Script("matrix", CFG_MAIN, rnd)
+        c = s.conn()
+        own = "c10.own.%s%d" % (tag, len(scripts))
+        ev = ["C%d" % c, "W%d:%s" % (c, (AUTH_OK + (hello().encode() if reg else b"")).hex())]
+        if reg:
+            ev.append("W%d:%s" % (c, request_name(s.next_serial(), own, 4).encode().hex()))
+        for (mtype, dest, ik, member, flags, _, le) in items:
+            m = matrix_msg(s.next_serial(), mtype, dest, ik, member, flags, le, own)
+            if m is not None:
+                ev.append("W%d:%s" % (c, m.encode().hex()))
+        ev.append("X%d" % c)
+        d = s.done(ev)
+        d["matrix"] = [list(x) for x in items]
+        return d
+    for reg in (True, False):
+        items = groups[reg]
+        for i in range(0, len(items), 12):
+            scripts.append(script_of(items[i:i + 12], reg))
+    for i in range(0, len(groups["closer"]), 1):
+        scripts.append(script_of(groups["closer"][i:i + 1], False))
+    return scripts
+
+
 def hand_written():
     """boundary scenarios (also kept in corpus/C10)"""
     rnd = random.Random(0)
@@ -819,7 +910,7 @@ def hand_written():
 FAMILIES = [(gen_mutation, 30), (gen_limits, 8), (gen_truncate, 10), (gen_handshake, 14), (gen_prehello, 10), (gen_oversized, 4), (gen_many_unauth, 8)]
 
 
-def generate(rnd, n_plain, n_flood, n_timed, n_blast=0, n_close=0, n_slots=0, n_act=0, n_throttle=0):
+def generate(rnd, n_plain, n_flood, n_timed, n_blast=0, n_close=0, n_slots=0, n_act=0, n_throttle=0, n_matrix=0):
     scripts = hand_written()
     tot = sum(w for _, w in FAMILIES)
     for _ in range(n_plain):
@@ -848,4 +939,6 @@ def generate(rnd, n_plain, n_flood, n_timed, n_blast=0, n_close=0, n_slots=0, n_
         scripts.append(gen_activation(rnd))
     for i in range(n_throttle):
         scripts.append(gen_throttle(rnd, None))
+    if n_matrix:
+        scripts += gen_matrix(rnd, n_matrix, "m")
     return scripts
